@@ -113,6 +113,26 @@ func c09ModelThreshold(m *memRig, ts uint64) (threshold, ofKeysOnly int) {
 }
 
 func c09MemGen(rng *core.Rng, tier string, p *harness.Plan) {
+	c09MemGenKind(rng, tier, p, rng.Chance(0.4))
+}
+
+// c09Directed: the race at the end of the node-operation window is part of every batch.
+func c09Directed(tier string, seed uint64) []*harness.Plan {
+	n := 1
+	if tier == "thorough" {
+		n = 4
+	}
+	var out []*harness.Plan
+	for i := 0; i < n; i++ {
+		rng := core.NewRng(core.SplitMix64(seed ^ core.SplitMix64(uint64(i)+0xc09d)))
+		p := &harness.Plan{Seed: rng.Uint64(), Params: map[string]int64{}}
+		c09MemGenKind(rng, tier, p, true)
+		out = append(out, p)
+	}
+	return out
+}
+
+func c09MemGenKind(rng *core.Rng, tier string, p *harness.Plan, race bool) {
 	q := memGen("C09")(rng, tier)
 	p.Params, p.Ops = q.Params, nil
 	p.Params["mem"] = 1
@@ -124,7 +144,12 @@ func c09MemGen(rng *core.Rng, tier string, p *harness.Plan) {
 	}
 	// make sure the membership really changes, with forgeries around every change
 	ops := []string{"forge", "pledge", "forge", "accept", "forge", "ordinary", "forge"}
-	if p.Params["nodes"] >= 8 {
+	if race {
+		// ten members (nine real ones and an accepted newcomer), then the race at the end of the window
+		p.Params["nodes"] = 9
+		ops = []string{"pledge", "accept", "forge", "raceforge", "ordinary", "forge"}
+		q.Ops = nil
+	} else if p.Params["nodes"] >= 8 {
 		ops = append(ops, "remove", "forge", "ordinary", "forge")
 	}
 	for i, k := range ops {
@@ -221,6 +246,165 @@ func c09Forge(m *memRig, op harness.Op, kinds map[string]int) {
 	}
 }
 
+// c09RaceForge: the propagation race at the end of the node-operation window.
+// A removal is finalized in the last seconds of the window; one node (the
+// victim) has not got it yet when a snapshot stamped just after the window
+// arrives whose certificate is complete and correct for the key vector BEFORE
+// the removal. The victim's transport loop verifies it against what the victim
+// knows (the old vector: fine) and queues it; the chain loop for that chain
+// gets no turn; the removal arrives and is applied; the chain loop then looks
+// at the queued snapshot again. At its timestamp the key vector is now the one
+// without the removed member, and the certificate is not valid for it: the
+// snapshot must not be stored, whatever was concluded (and remembered) before.
+// The member count is chosen so that the threshold is the same before and
+// after the removal (e.g. ten and nine members: seven signers both times).
+func c09RaceForge(m *memRig, op harness.Op, kinds map[string]int) {
+	c := m.c
+	vr := core.NewRng(uint64(op.C))
+	probe := func(why string) { m.r.out.Probes["race_forgery_not_possible:"+why]++ }
+	if m.pledging() != nil {
+		probe("somebody-is-pledging")
+		return
+	}
+	// the last seconds of the window of a day on which a removal is allowed and every acceptance has matured
+	epoch, day := uint64(c.Epoch.UnixNano()), uint64(24*time.Hour)
+	target := m.now() + uint64(13*time.Hour)
+	if lc := m.lastChange(); lc+uint64(13*time.Hour) > target {
+		target = lc + uint64(13*time.Hour)
+	}
+	end := uint64(config.KernelNodeAcceptTimeEnd+1) * uint64(time.Hour)
+	t := epoch + (target-epoch)/day*day + end - uint64(2500*time.Millisecond)
+	for t < target {
+		t += day
+	}
+	c.JumpTime(time.Duration(t - m.now()))
+	c.Run(c.Q.Now + 200*time.Millisecond)
+	n := len(c09ModelKeys(m, m.now()))
+	if n < 8 || n*2/3 != (n-1)*2/3 {
+		probe(fmt.Sprintf("%d-members", n))
+		return
+	}
+	ref := m.ref()
+	ts := m.now()
+	elected := ref.Node.SimElect(common.TransactionTypeNodeRemove, ts)
+	tx, err := ref.Node.SimBuildRemove(elected, ts)
+	if err != nil || m.inj.chainFor(elected) == nil {
+		probe("removal-not-buildable")
+		return
+	}
+	var spend crypto.Key
+	copy(spend[:], tx.Extra[:32])
+	gone := m.byPub[spend]
+	if gone == nil {
+		probe("removed-member-unknown")
+		return
+	}
+	// the victim: a real node that is neither the reference node, nor removed, nor the operator
+	var victim *cluster.SNode
+	for k := 0; k < c.Cfg.Nodes; k++ {
+		cand := c.Nodes[(int(op.A)+k)%c.Cfg.Nodes]
+		if cand.Alive && cand != ref && cand.Idx != gone.idx && cand.Id != elected {
+			victim = cand
+			break
+		}
+	}
+	if victim == nil {
+		probe("no-victim")
+		return
+	}
+	m.inj.now = ts
+	rem, err := m.inj.nextWith(m.inj.chainIndex(elected), false, tx)
+	if err != nil {
+		probe("removal-not-placeable")
+		return
+	}
+	for to := 0; to < c.Cfg.Nodes; to++ {
+		if to != victim.Idx {
+			m.inj.deliver(c.External(), c.Nodes[to], rem.tx, rem.snap, time.Duration(to)*time.Millisecond)
+		}
+	}
+	// the peers would hand the removal to the victim by themselves: its loop for that chain waits
+	victim.PollOnly = map[crypto.Hash]bool{}
+	for _, id := range victim.Node.SimChainIDs() {
+		if id != elected {
+			victim.PollOnly[id] = true
+		}
+	}
+	m.r.fault("sched.chain_loop_held_back", c.Q.Now+20*time.Second)
+	c.Run(c.Q.Now + 2200*time.Millisecond)
+	if s, _ := ref.Store.ReadSnapshot(rem.snap.Hash); s == nil {
+		victim.PollOnly = nil
+		probe("removal-not-applied")
+		return
+	}
+	gone.state, gone.since = common.NodeStateRemoved, rem.snap.Timestamp
+	m.record("remove", gone, rem)
+	// just past the end of the window
+	for (m.now()-epoch)%day < end+uint64(200*time.Millisecond) && (m.now()-epoch)%day > uint64(12*time.Hour) {
+		c.Run(c.Q.Now + 200*time.Millisecond)
+	}
+	// the forged snapshot on the chain of another member
+	var owner *memIdent
+	for _, id := range m.leaders() {
+		if id.id != elected && id.idx != gone.idx && id.idx != victim.Idx && (owner == nil || vr.Chance(0.4)) {
+			owner = id
+		}
+	}
+	if owner == nil {
+		victim.PollOnly = nil
+		probe("no-owner")
+		return
+	}
+	m.seq++
+	dep, _ := c.MakeDeposit(cluster.AssetBTC, common.NewIntegerFromString("0.25"), fmt.Sprintf("c09-race-%d", m.seq), 0, []int{0}, 1)
+	// (inside the window the removal candidate is already left out of the vector: the vector that still
+	// holds the removed member is the one of an instant before the window opened that day)
+	before := epoch + (rem.snap.Timestamp-epoch)/day*day + uint64(config.KernelNodeAcceptTimeBegin)*uint64(time.Hour) - uint64(time.Minute)
+	m.certOverride = func(s *common.Snapshot) *crypto.CosiSignature { return m.certifyAt(s, before) }
+	it := m.candidate(owner.id, []*common.VersionedTransaction{dep}, m.now())
+	m.certOverride = nil
+	if it == nil {
+		victim.PollOnly = nil
+		m.purge = false
+		probe("forgery-not-buildable")
+		return
+	}
+	if keys := c09ModelKeys(m, it.snap.Timestamp); len(keys) > 0 {
+		T, _ := c09ModelThreshold(m, it.snap.Timestamp)
+		if ok, _, _ := verifyCertificate(keys, T, it.snap); ok {
+			victim.PollOnly = nil
+			kinds["not-a-forgery:keys-before-the-removal"]++
+			return
+		}
+	}
+	// the victim hears of the snapshot first (its loop for that chain waits too) ...
+	delete(victim.PollOnly, owner.id)
+	m.inj.deliver(c.External(), victim, it.tx, it.snap, time.Millisecond)
+	c.Run(c.Q.Now + 700*time.Millisecond)
+	// ... then the removal gets through ...
+	victim.PollOnly[elected] = true
+	m.inj.deliver(c.External(), victim, rem.tx, rem.snap, time.Millisecond)
+	c.Run(c.Q.Now + 3*time.Second)
+	applied := false
+	if s, _ := victim.Store.ReadSnapshot(rem.snap.Hash); s != nil {
+		applied = true
+		m.r.out.Probes["race_forgery_primed_before_the_removal_arrived"]++
+	}
+	// ... and only now the chain loop looks at the queued snapshot
+	victim.PollOnly = nil
+	c.Run(c.Q.Now + 3*time.Second)
+	kinds["keys-before-a-removal:verified-before-it-arrived"]++
+	m.refused = append(m.refused, it)
+	m.r.out.Evals++
+	if s, _ := victim.Store.ReadSnapshot(it.snap.Hash); s != nil && applied && !c.Halt {
+		c.Violate("C09", "forged-certificate-applied:keys-before-a-removal-verified-before-it-arrived", fmt.Sprintf("n%d stored snapshot %s (ts %d) certified by the key vector before the removal at %d", victim.Idx, it.snap.Hash.String()[:8], it.snap.Timestamp, rem.snap.Timestamp), victim)
+		return
+	}
+	if m.purge && !c.Halt {
+		m.purgePools()
+	}
+}
+
 func c09MemExec(p *harness.Plan) *harness.Outcome {
 	mon := &c09MemMon{}
 	kinds := map[string]int{}
@@ -228,6 +412,7 @@ func c09MemExec(p *harness.Plan) *harness.Outcome {
 		mon.r = r
 		r.c.AddMonitor(mon)
 		r.extra["mem.forge"] = func(op harness.Op, idx int) { c09Forge(r.mem, op, kinds) }
+		r.extra["mem.raceforge"] = func(op harness.Op, idx int) { c09RaceForge(r.mem, op, kinds) }
 	})
 	if fail != nil {
 		return fail
